@@ -1,6 +1,7 @@
 package ed25519
 
 import (
+	"io"
 	"math/big"
 	"bytes"
 	"crypto"
@@ -382,6 +383,81 @@ func jobC07(c *rt.Ctx) {
 			}
 		}
 	}
+	// re-entrancy and Options values copied by VALUE: a VerifyBatch call under context A whose entropy
+	// reader - while the call is under way - makes another library call under context B (same length /
+	// other length / pre-hash flag flipped), with an Options value that is fresh, or a struct copy of
+	// the outer call's Options made after its first use. Entries signed under B are all rejected by the
+	// outer call, entries signed under A all accepted; the inner call gets its own right answer.
+	c.Require("reentrant-options")
+	{
+		type inner struct {
+			name string
+			ctx  string
+			ph   bool
+		}
+		inners := []inner{{"same-length", "tenant-B", false}, {"shorter", "ten-B", false}, {"longer", "tenant-B-with-a-longer-name", false}, {"ph-flag", "tenant-A", true}, {"empty-ctx-ph", "", true}}
+		for ii, in := range inners {
+			for form := 0; form < 4; form++ {
+				if !c.Take() {
+					continue
+				}
+				c.Class("reentrant-options")
+				c.Distinct(fmt.Sprintf("reentrant %d %d", ii, form), true)
+				outerVs := variantSpec{ref.Ctx, "tenant-A"}
+				innerVs := variantSpec{ref.Ctx, in.ctx}
+				if in.ph {
+					innerVs.v = ref.Ph
+				}
+				tmpl := &Options{Context: "tenant-A"}
+				first := modelTriple(70, digest, outerVs)
+				if !VerifyWithOptions(first.key, first.msg, first.sig, tmpl) { // first use of the template
+					c.Violation("C07 reentrant first-use", "honest signature under the template options rejected", nil)
+				}
+				var innerOpts *Options
+				switch form {
+				case 0, 2: // struct copy of the used template
+					cp := *tmpl
+					cp.Context = in.ctx
+					if in.ph {
+						cp.Hash = crypto.SHA512
+					}
+					innerOpts = &cp
+				default: // fresh value
+					innerOpts = innerVs.opts(false)
+				}
+				innerT := modelTriple(71, digest, innerVs)
+				// outer batch: forms 0/1: entries signed under the INNER variant (all must be rejected);
+				// forms 2/3: entries signed under the outer variant (all must be accepted)
+				signVs := innerVs
+				if form >= 2 {
+					signVs = outerVs
+				}
+				var es []triple
+				for j := 0; j < 8; j++ {
+					es = append(es, modelTriple(72+j, digest, signVs))
+				}
+				innerOK, innerPanic := false, interface{}(nil)
+				rd := &callbackReader{r: rt.NewRng(c.Seed, "reentrant"), cb: func() {
+					defer func() { innerPanic = recover() }()
+					innerOK = VerifyWithOptions(innerT.key, innerT.msg, innerT.sig, innerOpts)
+					_, _ = NewKeyFromSeed(seedOf(3)).Sign(nil, digest, innerOpts)
+				}}
+				pubs, msgs, sigs, _ := layoutBatch(es)
+				all, valid, err := VerifyBatch(rd, pubs, msgs, sigs, tmpl)
+				c.Step(3)
+				want := form >= 2
+				bad := err != nil || len(valid) != 8 || all != want || !innerOK || innerPanic != nil || !rd.called
+				for _, v := range valid {
+					bad = bad || v != want
+				}
+				if bad {
+					c.Violation(fmt.Sprintf("C07 reentrant-options inner=%s form=%d", in.name, form), fmt.Sprintf("VerifyBatch under ctx/%q whose entropy reader verified and signed under %s (options: %s): entries signed under %s reported %v all=%v err=%v (want all %v); inner verification %v (panic %v)",
+						"tenant-A", innerVs, map[bool]string{true: "struct copy of the used template", false: "fresh value"}[form%2 == 0], signVs, valid, all, err, want, innerOK, innerPanic),
+						map[string]interface{}{"inner": in.name, "form": form})
+				}
+			}
+		}
+	}
 	// context CONTENT: bytes that mean something to formatting, templating, C strings, UTF-8 or shells are
 	// just bytes here. Sign == RFC 8032 (model), the model's signature verifies, single and in a batch
 	c.Require("ctx-content")
@@ -562,4 +638,20 @@ func modelTriple(seedIdx int, msg []byte, vs variantSpec) triple {
 	t := triple{ref.Public(seed), msg, ref.Sign(seed, msg, vs.v, []byte(vs.ctx))}
 	modelTripleMemo[k] = t
 	return t
+}
+
+// callbackReader runs cb inside its first Read (a call made by the environment while the outer call is
+// under way), then delivers.
+type callbackReader struct {
+	r      io.Reader
+	cb     func()
+	called bool
+}
+
+func (r *callbackReader) Read(p []byte) (int, error) {
+	if !r.called {
+		r.called = true
+		r.cb()
+	}
+	return r.r.Read(p)
 }
